@@ -60,5 +60,11 @@ CHECKS = {
   "text": "simulate() of the real runner is symbolically executed with _run_simulation and _keep_going replaced by oracle contracts (raise SkipThisOne or return a fresh symbolic result; arbitrary boolean); every oracle pattern is explored for rep_max 1..3, up to 2 skips per variation and grids with 0..2 unpacked parameters. On every path the variation order, repetition counts, stop behaviour, stored sums (symbolic identities) and skipped counts satisfy the contract, and SkipThisOne never escapes. get_pack_indexes / get_result_values_list / get_unpacked_params_list are decided by complete enumeration over all grids with 0..3 unpacked parameters of lengths 1..3 and all fixed-value subsets.",
   "note": "Bounded in rep_max, skips and grid size for the symbolic runs (values symbolic, all patterns); progress bars/timing/option parsing and the concrete parameter-grid code are executed natively; liveness when every repetition skips is outside contracts.",
  },
+ "C07": {
+  "category": "proof",
+  "technique": "contract-based deductive verification: crash Hoare logic over a ghost file system for the save routines (crash invariant after every effect), resume arithmetic of the real repetition loop from an arbitrary saved state with oracle hooks, refusal contract of load_partial_results; bounded real kill/restart runs",
+  "text": "The real _save_to_pickle/_save_to_json are symbolically executed against effect models of open/write/dump/close/os.replace and the crash invariant 'target absent or complete (old or new), never partial' is checked after every effect. The real repetition loop is executed with load_partial_results returning an arbitrary saved state: exactly rep_max-c0 new successful repetitions, each counted once, result = saved + new, and the state handed to save_partial_results is the current one. load_partial_results accepts equal parameters (ignoring rep_max), raises ValueError otherwise, returns None for a missing file and does not swallow other errors. Real processes killed inside every write call and restarted are the bounded cross-check.",
+  "note": "File-system effect models (atomic rename, truncation on open, complete only after close) are assumed; fsync/page-cache durability is outside contracts; resume arithmetic bounded in rep_max like C05; the 500-repetition save period only in the bounded runs.",
+ },
 }
 NOT_APPLICABLE = {}
